@@ -380,6 +380,8 @@ def gen_opts(rng: random.Random, tier: str, n: int) -> dict:
         lvl = rng.choice([1, 1, 2, 2, 3, 4])
     elif tier == 'thorough' and n == 4:
         lvl = rng.choice([1, 1, 2, 2, 3])
+    elif n <= 4 and rng.random() < 0.1:
+        lvl = 3     # quick tier: a few level-3 runs (10-40 s each)
     else:
         lvl = rng.choice([1, 1, 2])
     return {'optimization_level': lvl,
